@@ -15,6 +15,12 @@ DOCS = [
     ("semantic-error-after-umlaut", "PROGRAM pu\nVAR x : INT; END_VAR\n(* Zähler für Überlauf *) y := 1;\nEND_PROGRAM\n"),
     ("syntax-error-after-cjk", "PROGRAM pc\nVAR x : INT; s : STRING; END_VAR\ns := '日本語'; x := ;\nEND_PROGRAM\n"),
     ("lexical-error-after-accent", "PROGRAM pa\nVAR x : INT; END_VAR\n(* é *) x := 1 ? 2;\nEND_PROGRAM\n"),
+    # the same text with and without white space at the end, once failing at the very end (no END_PROGRAM) and once valid: an editor
+    # that trims on save sends the second after the first; whatever was remembered about the first must not be applied to it
+    ("unfinished-with-blank-lines", "PROGRAM pt\nVAR x : INT; END_VAR\nx := 1;\n\n\n   \n"),
+    ("unfinished-trimmed", "PROGRAM pt\nVAR x : INT; END_VAR\nx := 1;"),
+    ("valid-with-blank-lines", "PROGRAM pv\nVAR x : INT; END_VAR\nx := 1;\nEND_PROGRAM\n\n\t \n"),
+    ("valid-trimmed", "PROGRAM pv\nVAR x : INT; END_VAR\nx := 1;\nEND_PROGRAM"),
 ]
 
 
